@@ -457,8 +457,10 @@ class Enumerator:
             return list(range(-1, p.b0 + 1))
         raise SmtError("no domain for %s" % var)
 
-    def models(self):
-        """Yield (projection tuple, full assignment) for every model found (every projection at least once)."""
+    def models(self, fixed_t=None):
+        """Yield (projection tuple, full assignment) for every model found (every projection at least once).
+        fixed_t: optional list of theta values, one per position: only models with exactly that t_0..t_b0-1 are
+        searched (used to complete a known instruction sequence into a full model of a long instance)."""
         p = self.p
         A = {}
         trail = []
@@ -516,7 +518,7 @@ class Enumerator:
             tv = p.t_vars[j]
             # every variable of time <= j is assigned, so the assertions of earlier buckets are already decided
             forms = self.by_time.get(j + 1, [])
-            for val in self.theta_values:
+            for val in (self.theta_values if fixed_t is None else [fixed_t[j]]):
                 mark = len(trail)
                 A[tv] = val
                 trail.append(tv)
@@ -562,13 +564,20 @@ def _key(v):
     return (type(v).__name__, v)
 
 
-def model_text(prob, A, style="oms"):
-    """Render a model the way the solver binaries print it (only what the tool's reader looks at: define-fun lines)."""
+def model_text(prob, A, style="oms", order="decl"):
+    """Render a model the way the solver binaries print it (only what the tool's reader looks at: define-fun lines).
+    order: "decl" (declaration order), "sorted", "reverse" -- solvers print definitions in hash order, a reader must
+    not depend on it."""
     lines = ["sat"]
     if style == "oms":
         lines.append("(objectives\n (cost 0)\n)")
     lines.append("(model" if style == "oms" else "(")
-    for name, (args, res) in prob.decls.items():
+    names = list(prob.decls.items())
+    if order == "sorted":
+        names.sort(key=lambda kv: kv[0])
+    elif order == "reverse":
+        names.sort(key=lambda kv: kv[0], reverse=True)
+    for name, (args, res) in names:
         if args:
             continue
         if name in A:
